@@ -1,6 +1,7 @@
 #!/venv/bin/python
 """Regenerates vstat/roles.json (structural fingerprints of the locals of every
 function of the pinned tree) -- see vstat/alpha.py."""
+import ast
 import json
 import os
 import sys
@@ -10,9 +11,10 @@ sys.path.insert(0, HERE)
 sys.dont_write_bytecode = True
 os.environ['VSTAT_NO_ALPHA'] = '1'
 os.environ['VSTAT_NO_INLINE'] = '1'
+os.environ['VSTAT_NO_UNHOIST'] = '1'
 
 from vstat.index import SourceIndex, FUNC_TYPES  # noqa: E402
-from vstat import alpha  # noqa: E402
+from vstat import alpha, unhoist  # noqa: E402
 
 idx = SourceIndex(sys.argv[1] if len(sys.argv) > 1 else '/repo')
 out = {}
@@ -41,6 +43,26 @@ for rel, module in idx.modules.items():
                 if isinstance(it, FUNC_TYPES):
                     names.add('{}.{}'.format(st.name, it.name))
     inventory[rel] = sorted(names)
+pinned = {}
+for rel, module in idx.modules.items():
+    names = set()
+    for st in module.tree.body:
+        for n in ([st] if not isinstance(st, (ast.If, ast.Try)) else list(ast.walk(st))):
+            if isinstance(n, (ast.Assign, ast.AnnAssign, ast.AugAssign)):
+                for t in (n.targets if isinstance(n, ast.Assign) else [n.target]):
+                    names |= {x.id for x in ast.walk(t) if isinstance(x, ast.Name)}
+            elif isinstance(n, FUNC_TYPES + (ast.ClassDef,)):
+                names.add(n.name)
+            elif isinstance(n, (ast.Import, ast.ImportFrom)):
+                names |= {(a.asname or a.name).split('.')[0] for a in n.names}
+    lambdas = {}
+    for qual in inventory[rel]:
+        inv = unhoist.lambda_inventory(module.functions[qual])
+        if inv:
+            lambdas[qual] = inv
+    pinned[rel] = {'names': sorted(names), 'lambdas': lambdas}
+with open(os.path.join(HERE, 'vstat', 'pinned.json'), 'w') as handle:
+    json.dump(pinned, handle, indent=0, sort_keys=True)
 with open(os.path.join(HERE, 'vstat', 'functions.json'), 'w') as handle:
     json.dump(inventory, handle, indent=0, sort_keys=True)
 with open(os.path.join(HERE, 'vstat', 'roles.json'), 'w') as handle:
